@@ -232,3 +232,14 @@ Theorem builder_spec_on_concatenated_output : forall text cover evs fin,
   builder_spec_cat text cover evs fin = builder_spec text cover evs fin.
 Proof. exact builder_spec_cat_eq. Qed.
 Print Assumptions builder_spec_on_concatenated_output.
+
+(* builder_composes relative to builder_mappings_exact: names aside, the
+   mappings of the chunk built with input map [ms] are the mappings of the chunk
+   built without one (cover off), each with its original position (line,
+   column) replaced by the target of spec_find ms line column, and dropped when
+   spec_find finds nothing; generated positions are untouched. *)
+Theorem composes_is_remapping : forall text ms inames evs fin,
+  map strip_abs (abs_of (fst (fst (builder_in_spec text ms inames evs fin))) 0) =
+  flat_map (remap_abs ms) (abs_of (builder_spec_ops text false evs fin) 0).
+Proof. exact composes_remaps_abs. Qed.
+Print Assumptions composes_is_remapping.
